@@ -49,8 +49,14 @@ impl Check for C17 {
         let explicit_port = g.chance(55);
         let port = if explicit_port { if g.chance(40) { *g.pick(&[80u64, 443, 8080, 1, 65_535]) } else { g.range(1, 65_535) } } else if https_abs { 443 } else { default_port };
         let method = if form == "connect" { "CONNECT".to_string() } else { g.pick(&["GET", "GET", "POST", "PUT", "DELETE", "HEAD", "OPTIONS", "PATCH", "PROPFIND", "get", "Post", "M-SEARCH"]).to_string() };
-        let path = match g.range(0, 5) {
-            0 => "/".to_string(),
+        let mut method = method;
+        let path = match g.range(0, 7) {
+            6 => format!("?q={}", gen_token(&mut g, 6)), // a query directly after the authority (absolute form); "/?q=.." otherwise
+            7 if form == "origin" => {
+                method = "OPTIONS".to_string(); // asterisk form
+                "*".to_string()
+            }
+            0 | 7 => "/".to_string(),
             1 => format!("/{}", gen_token(&mut g, 12)),
             2 => format!("/a/b/{}?x={}&y=%20z", gen_token(&mut g, 5), gen_token(&mut g, 7)),
             3 => format!("/{}", gen_token(&mut g, 300)),
@@ -105,8 +111,8 @@ impl Check for C17 {
             let method = plan["method"].as_str().unwrap_or("GET").to_string();
             let version = plan["version"].as_str().unwrap_or("HTTP/1.1").to_string();
             let mut path = plan["path"].as_str().unwrap_or("/").to_string();
-            if form != "absolute" && path.is_empty() {
-                path = "/".into();
+            if form != "absolute" && (path.is_empty() || path.starts_with('?')) {
+                path = format!("/{}", path);
             }
             let target_line = match form.as_str() {
                 "connect" => if explicit { authority.clone() } else { format!("{}:{}", hostspec, port) },
@@ -269,7 +275,7 @@ impl Check for C17 {
                         let head_text = String::from_utf8_lossy(&rec[..he - 4]).to_string();
                         let mut lines = head_text.split("\r\n");
                         let rl = lines.next().unwrap_or("");
-                        let origin_form = if form == "absolute" && path.is_empty() { "/".to_string() } else { path.clone() };
+                        let origin_form = if form == "absolute" && !path.starts_with('/') { format!("/{}", path) } else { path.clone() };
                         let want_rl = format!("{} {} {}", method, origin_form, version);
                         if rl != want_rl {
                             out.viol("request", format!("request-line:{}", form), format!("origin got request line {:?}, expected {:?}", rl.chars().take(100).collect::<String>(), want_rl.chars().take(100).collect::<String>()));
